@@ -5,6 +5,12 @@ namespace DV
 @[simp] theorem ok_bind {α β} (x : α) (f : α → Chk β) : (Except.ok x : Chk α) >>= f = f x := rfl
 @[simp] theorem err_bind {α β} (e : Fault) (f : α → Chk β) : (Except.error e : Chk α) >>= f = .error e := rfl
 
+theorem bind_eq_ok {α β} {x : Chk α} {f : α → Chk β} {b : β} :
+    (x >>= f) = .ok b ↔ ∃ a, x = .ok a ∧ f a = .ok b := by
+  cases x with
+  | error e => simp [bind, Except.bind]
+  | ok a => simp [bind, Except.bind]
+
 theorem wrap32_eq_bmod (x : Int) : wrap32 x = Int.bmod x 4294967296 := by
   simp only [wrap32, Int32.toInt_ofInt]
 theorem wrap64_eq_bmod (x : Int) : wrap64 x = Int.bmod x 18446744073709551616 := by
